@@ -273,6 +273,18 @@ class FnAnalysis:
             return (a[0] * t[1], a[1] * t[1])
         if k == "in" or k == "not" or k == "ovf_flag":
             return (0, 1)
+        if k == "pow":
+            b, e = self.range_of(st, t[1], depth + 1), self.range_of(st, t[2], depth + 1)
+            if b[0] >= 0 and e[0] >= 0 and INF not in (b[1], e[1]) and e[1] <= 200:
+                try:
+                    return (int(b[0]) ** int(e[0]), int(b[1]) ** int(e[1]))
+                except OverflowError:
+                    pass
+            return self.tyrange(t)
+        if k == "someval" and t[1][0] == "rangenext":
+            lo = self.range_of(st, t[1][1], depth + 1)
+            hi = self.range_of(st, t[1][2], depth + 1)
+            return (lo[0], hi[1] - 1)
         if k == "okval":
             x = t[1]
             if x[0] == "ret" and x[1] == self.fn.path:
@@ -588,6 +600,10 @@ class FnAnalysis:
             v = ("len", args[0])
             self._reg(v, "usize")
             return v
+        if name == sym.RANGE_NEXT and args and args[0][0] == "adt" and args[0][1] == "core::ops::range::Range":
+            # value semantics keep the iterator's initial bounds: every yielded element lies in [start, end)
+            v = ("rangenext", fld(args[0], "start"), fld(args[0], "end"), bb)
+            return v
         if name in IS_EMPTY or decl in IS_EMPTY:
             v = ("len", args[0])
             self._reg(v, "usize")
@@ -840,6 +856,12 @@ def _vm_unsigned_abs(an, st, t, args):
     return v
 
 
+def _vm_pow(an, st, t, args):
+    v = ("pow", args[0], args[1])
+    an._reg(v, an.place_ty(t["dest"]))
+    return v
+
+
 def _vm_size_of(an, st, t, args):
     sz = t["targs"][0].get("size") if t.get("targs") else None
     if sz is not None:
@@ -888,3 +910,5 @@ for _ty in ("u8", "u16", "u32", "u64", "usize"):
     VALUE_MODELS["core::num::<impl %s>::saturating_add" % _ty] = _vm_saturating_add
 for _ty in ("i16", "i32", "i64"):
     VALUE_MODELS["core::num::<impl %s>::unsigned_abs" % _ty] = _vm_unsigned_abs
+for _ty in ("u8", "u16", "u32", "u64", "usize", "i32", "i64"):
+    VALUE_MODELS["core::num::<impl %s>::pow" % _ty] = _vm_pow
